@@ -142,22 +142,51 @@ def oget (m : List (Cand × Option Rat)) (c : Cand) : Option Rat :=
   | some e => e.2
   | none => none
 
-/-- `max_counterscore` of `MinimaxCondorcet.evaluate` (L418-425) -/
+/-- the loop L427-431 of `MinimaxCondorcet.evaluate` over a dictionary of scored pairs, started from
+    `{cand: -inf for cand in cands}` -/
+def maxCounterscoreOn (cands : List Cand) (scored : Pairwise) : List (Cand × Option Rat) :=
+  scored.foldl (fun m e =>
+    oset m e.1.2 (match oget m e.1.2 with
+      | none => some e.2
+      | some a => some (rmax a e.2))) (cands.map (fun c => (c, none)))
+
+/-- the worst counter-scores over the pairs PRESENT in `v` (this was `max_counterscore` before fix 39ed002;
+    kept as a helper: `minimaxPresent`, C17) -/
 def maxCounterscore (sc : Scorer) (v : Pairwise) : List (Cand × Option Rat) :=
   (scorePairs sc v).foldl (fun m e =>
     oset m e.1.2 (match oget m e.1.2 with
       | none => some e.2
       | some a => some (rmax a e.2))) ((candidates v).map (fun c => (c, none)))
 
+/-- `all_pairs` (condorcet.py L421-425): every ordered pair of distinct candidates, a pair nobody ranked
+    counting as zero -/
+def allPairs (v : Pairwise) : Pairwise :=
+  ((candidates v).flatMap (fun u => (candidates v).map (fun l => ((u, l), pget v (u, l))))).filter
+    (fun e => e.1.1 != e.1.2)
+
+/-- `max_counterscore` of `MinimaxCondorcet.evaluate` (L417-431): seeded with the candidates of `votes`,
+    filled from the scored `all_pairs` -/
+def minimaxTable (sc : Scorer) (v : Pairwise) : List (Cand × Option Rat) :=
+  maxCounterscoreOn (candidates v) (scorePairs sc (allPairs v))
+
 /-- a rational strictly above every finite negated counter-score: stands for `+inf`
-    (`get_n_best` only compares values) -/
+    (`get_n_best` only compares values; `-inf` survives only for a lone candidate) -/
 def minimaxBig (m : List (Cand × Option Rat)) : Rat :=
   1 + m.foldl (fun acc e => match e.2 with
     | some s => rmax acc (-s)
     | none => acc) 0
 
-/-- `MinimaxCondorcet(scorer).evaluate` (L405-429) -/
+/-- `MinimaxCondorcet(scorer).evaluate` (L405-435) -/
 def minimax (sc : Scorer) (v : Pairwise) (n : Nat) : List Slot :=
+  let m := minimaxTable sc v
+  let big := minimaxBig m
+  getNBest (m.map (fun e => (e.1, match e.2 with
+    | some s => -s
+    | none => big))) n
+
+/-- the evaluator as it was before fix 39ed002 (only the pairs present in `v` are scored); on a dictionary
+    without self-pairs `minimax sc v n = minimaxPresent sc (allPairs v) n` -/
+def minimaxPresent (sc : Scorer) (v : Pairwise) (n : Nat) : List Slot :=
   let m := maxCounterscore sc v
   let big := minimaxBig m
   getNBest (m.map (fun e => (e.1, match e.2 with
